@@ -217,17 +217,24 @@ def _original(case, ctx):
 
         rnd = random.Random("c08gen/%s/%s/%s" % (case["kind"], case["i"], case["seed"]))
         twin = case["i"] % 4 in (0, 1)
+        axsp = case["i"] % 4 == 3          # glyphs with masters along one axis only -> several VarData / sub-models
         g = c10_ds.make(rnd, kind=case["kind"], rules=(case["i"] % 3 != 2) or twin, n_extra=rnd.choice([1, 2, 3]), twin=twin,
-                        naxes=rnd.choice([2, 2, 3]) if twin else None)
+                        naxes=rnd.choice([2, 2, 3]) if (twin or axsp) else None, axis_sparse=True if axsp else None)
         twin_axes = g["twin_axes"]
+        axis_sparse_tags = list(g["axis_sparse"])
         with hooks.quiet():
             font, _, _ = varLib.build(g["ds"], optimize=bool(case["i"] % 2))
         font = corpus.open_bytes(corpus.save_bytes(font))
         ndup = _shadowed_pair_subtable(font)
+        vs_enc = None
+        if "CFF2" in font and axsp:
+            vs_enc = "implied" if case["i"] % 8 == 7 else "explicit"
+            if not _explicit_private_vsindex(font, vs_enc == "implied"):
+                vs_enc = None
     order = corpus.fix_glyph_names(font)
     repairs = []
     if case["src"] != "gen":
-        twin_axes, ndup = [], 0
+        twin_axes, ndup, axis_sparse_tags, vs_enc = [], 0, [], None
     if "cmap" in font and len(order) > 1:
         corpus.add_pua(font)
     if "name" not in font:
@@ -251,7 +258,7 @@ def _original(case, ctx):
             "tables": sorted(font.keys()), "composites": _composites(font),
             "hvar_map": None, "mvar": None, "typo_ok": _typo_consistent(font),
             "varc": "VARC" in font, "repairs": repairs, "phantom_var": _phantom_var(font), "lsb_not_xmin": _lsb_not_xmin(font),
-            "twin_axes": twin_axes, "shadowed_pair_subtables": ndup,
+            "twin_axes": twin_axes, "shadowed_pair_subtables": ndup, "axis_sparse_tags": axis_sparse_tags, "private_vsindex": vs_enc,
             "use_typo_bit": "OS/2" in font and font["OS/2"].version >= 4 and bool(font["OS/2"].fsSelection & 0x80)}
     if "HVAR" in font:
         hv = font["HVAR"].table
@@ -261,6 +268,36 @@ def _original(case, ctx):
         _orig_cache.clear()
     _orig_cache[key] = info
     return info
+
+
+def _explicit_private_vsindex(font, implied=True):
+    """Generated CFF2 fonts with several VarData: re-encode so that the Private dict names VarData 1 as its default
+    (`vsindex 1`); charstrings that used the implicit VarData 0 get an explicit `0 vsindex`, those that selected 1
+    lose their now implied operator (implied=True) or keep it as a redundant one (implied=False).  Same font, other
+    (equally valid) encoding."""
+    top = font["CFF2"].cff.topDictIndex[0]
+    store = getattr(top, "VarStore", None)
+    if store is None or len(store.otVarStore.VarData) < 2:
+        return False
+    privs = []
+    for fd in top.FDArray:
+        if fd.Private not in privs:
+            privs.append(fd.Private)
+    if any(hasattr(p, "vsindex") for p in privs):
+        return False
+    cs_all = top.CharStrings
+    for name in cs_all.keys():
+        cs = cs_all[name]
+        cs.decompile()
+        prog = cs.program
+        if len(prog) >= 2 and prog[1] == "vsindex":
+            if prog[0] == 1 and implied:
+                del prog[:2]
+        elif "blend" in prog:
+            prog[0:0] = [0, "vsindex"]
+    for p in privs:
+        p.vsindex = 1
+    return True
 
 
 def _shadowed_pair_subtable(font):
@@ -355,7 +392,7 @@ def _rv(rnd, lo, hi):
     return min(hi, max(lo, v))
 
 
-def gen_limits(rnd, axes, k, keep=()):
+def gen_limits(rnd, axes, k, keep=(), pin=()):
     """axes: [(tag, min, default, max)] -> (limits dict for the API, kinds {tag: kind}).
     Axes in `keep` are left untouched or restricted to their full range (their normalised space stays as it is)."""
     lim, kinds = {}, {}
@@ -424,6 +461,8 @@ def gen_limits(rnd, axes, k, keep=()):
             c = rnd.choice(["keep", "keep"] + pins + ranges + ranges)
         if tag in keep:
             c = rnd.choice(["keep", "range-full"])
+        if tag in pin:
+            c = rnd.choice(["pin-random", "pin-default", "pin-min", "pin-max", "none"])
         one(tag, lo, df, hi, c)
     if not lim and keep:
         tag, lo, df, hi = next(a for a in axes if a[0] in keep)
@@ -548,7 +587,9 @@ def run_case(case, ctx):
     if not axes:
         ctx.skip("no axes")
         return
-    lim, kinds = gen_limits(rnd, axes, case["k"], keep=info["twin_axes"] if case["k"] % 2 else ())
+    ast = info["axis_sparse_tags"]
+    lim, kinds = gen_limits(rnd, axes, case["k"], keep=(info["twin_axes"] or ast[1:2]) if case["k"] % 2 else (),
+                            pin=ast[:1] if case["k"] % 2 else ())
     eff = effective_limits(axes, lim)
     pinned = {t: v[1] for t, v in eff.items() if v[0] == v[2]}
     full = len(pinned) == len(axes)
@@ -764,9 +805,10 @@ def run_case(case, ctx):
                         ctx.skip("original's HVAR disagrees with its gvar phantom points (advance not comparable)")
                         adv_incons.add(g)
                         continue
-                    # instance(x) = gvar(new default) + HVAR(x) - HVAR(new default): a disagreement between the two
-                    # tables at either location carries over
-                    tol += own(gname) - 0.52 + inc + incons0.get(g, 0)
+                    # instance(x) = gvar(new default) + HVAR(x) - HVAR(new default): the disagreement of the two tables at
+                    # the new default carries over; it is measured on HarfBuzz's integer advances, i.e. up to 1 unit more
+                    # than what is seen (two roundings of half a unit)
+                    tol += own(gname) - 0.52 + incons0.get(g, 0) + 1.0
             else:
                 # no HVAR: HarfBuzz takes the advance from two phantom points of gvar
                 tol = 1.0 + (2 * own(gname) if not is_cff else 0.5) + sens["adv"][g]
@@ -800,7 +842,7 @@ def run_case(case, ctx):
                     if inc > 1 or vincons0.get(g, 0) > 1:
                         ctx.skip("original's VVAR disagrees with its gvar phantom points (vertical advance not comparable)")
                         okc = False
-                    tol += own(gname) - 0.52 + inc + vincons0.get(g, 0)
+                    tol += own(gname) - 0.52 + vincons0.get(g, 0) + 1.0
                 if okc:
                     ctx.judged()
                     ctx.note("vertical-advances-judged")
@@ -879,7 +921,10 @@ def run_case(case, ctx):
                   "K_steps": steps, "handlers": dict(_cur["handlers"]), "rebaseTent_calls": _cur["rebase"],
                   "instanced_varstores": [{"table": s["table"], "regions_per_major": [len(m) for m in s["majors"]]} for s in _cur["ivs"]],
                   "worst_observed": worst, "instance_tables": sorted(I.tags), "harness_repairs_of_original": info["repairs"],
-                  "twin_rule_axes": info["twin_axes"], "shadowed_pair_subtables": info["shadowed_pair_subtables"]}
+                  "twin_rule_axes": info["twin_axes"], "shadowed_pair_subtables": info["shadowed_pair_subtables"],
+                  "axis_sparse_glyph_axes": info["axis_sparse_tags"], "private_vsindex_encoding": info["private_vsindex"]}
+    if info["private_vsindex"]:
+        ctx.note("gen:cff2-private-vsindex-" + info["private_vsindex"])
     if info["twin_axes"]:
         ctx.note("gen:twin-feature-variation-rules")
     if info["shadowed_pair_subtables"]:
